@@ -9,4 +9,6 @@ if [ ! -x bin/vcheck ] || [ -n "$(find cmd internal go.mod -newer bin/vcheck -pr
   go build -o bin/vcheck ./cmd/vcheck
 fi
 set +e
+# the harness itself must never exhaust the machine (no memory limit in the sandbox): 40 GB of address space
+ulimit -v 41943040 2>/dev/null
 exec bin/vcheck "$@"
